@@ -165,6 +165,15 @@ def derived_bases(g, t):
             out.append(("np.float64-scalar", t_np, False))
         except Exception:  # noqa: BLE001
             pass
+        # 0-d arrays (a rank of their own: not scalars, not 1-element vectors) and infinite scalars (NaN-free data)
+        for nm, val in (("0-d-array", np.array(c.values[k0])), ("0-d-float-array", np.array(float(c.values[k0]))),
+                        ("+inf", float("inf")), ("-inf", float("-inf")), ("size-1-array", np.array([float(c.values[k0])])),
+                        ("2-d-1x1-array", np.array([[float(c.values[k0])]]))):
+            try:
+                out.append((nm, Triangle(cells[:i] + [rebuild(c, values={**c.values, k0: val})] + cells[i + 1:]),
+                            nm not in ("0-d-array", "0-d-float-array")))     # a 0-d array equals the scalar (np.array_equal)
+            except Exception:  # noqa: BLE001
+                pass
     return out
 
 
